@@ -15,6 +15,7 @@ import (
 	"bytes"
 	"crypto/sha256"
 	"encoding/hex"
+	"errors"
 	"fmt"
 	"io"
 	"math/rand"
@@ -36,7 +37,7 @@ func init() { RegisterSub("C08", "histories", RunC08) }
 // ---------------------------------------------------------------- ops
 
 type c08Op struct {
-	K byte // 's' SeekToRow(A), 'r' read with batch size A, 'i' load the offset index lazily
+	K byte // 's' SeekToRow(A), 'r' read with batch size A, 'i' load the offset index lazily, 'z' Reset()
 	A int64
 }
 
@@ -46,6 +47,8 @@ func (o c08Op) String() string {
 		return "s" + strconv.FormatInt(o.A, 10)
 	case 'r':
 		return "r" + strconv.FormatInt(o.A, 10)
+	case 'z':
+		return "z"
 	}
 	return "i"
 }
@@ -61,8 +64,8 @@ func c08OpsString(ops []c08Op) string {
 func c08ParseOps(s string) []c08Op {
 	var ops []c08Op
 	for _, t := range strings.Fields(s) {
-		if t == "i" {
-			ops = append(ops, c08Op{K: 'i'})
+		if t == "i" || t == "z" {
+			ops = append(ops, c08Op{K: t[0]})
 			continue
 		}
 		a, _ := strconv.ParseInt(t[1:], 10, 64)
@@ -87,7 +90,15 @@ type c08File struct {
 	bounds  [][][]int64 // [rg][col] FirstRowIndex of each page (from the offset index)
 	offsets [][][]int64 // [rg][col] file offset of each page
 	dict    [][]bool    // [rg][col] chunk metadata has a dictionary page offset
+	psize   [][][]int64 // [rg][col] compressed size of each page, header included
+	bad     *c08Bad     // one page whose body was corrupted after the oracle was built (nil: intact file)
 	buffer  func() (parquet.RowGroup, error)
+}
+
+// c08Bad names the page whose checksum no longer matches and the global rows it holds.
+type c08Bad struct {
+	rg, col, page int
+	lo, hi        int
 }
 
 func (f *c08File) nrg() int { return len(f.rgStart) - 1 }
@@ -161,21 +172,22 @@ func c08Oracle(f *c08File) error {
 	md := pf.Metadata()
 	for gi, rg := range pf.RowGroups() {
 		f.rgStart = append(f.rgStart, f.rgStart[len(f.rgStart)-1]+int(rg.NumRows()))
-		var bs, os [][]int64
+		var bs, os, zs [][]int64
 		var ds []bool
 		for ci, cc := range rg.ColumnChunks() {
 			oi, err := cc.OffsetIndex()
-			var b, o []int64
+			var b, o, z []int64
 			if err == nil && oi != nil {
 				for p := 0; p < oi.NumPages(); p++ {
 					b = append(b, oi.FirstRowIndex(p))
 					o = append(o, oi.Offset(p))
+					z = append(z, oi.CompressedPageSize(p))
 				}
 			}
-			bs, os = append(bs, b), append(os, o)
+			bs, os, zs = append(bs, b), append(os, o), append(zs, z)
 			ds = append(ds, md.RowGroups[gi].Columns[ci].MetaData.DictionaryPageOffset != 0)
 		}
-		f.bounds, f.offsets, f.dict = append(f.bounds, bs), append(f.offsets, os), append(f.dict, ds)
+		f.bounds, f.offsets, f.dict, f.psize = append(f.bounds, bs), append(f.offsets, os), append(f.dict, ds), append(f.psize, zs)
 	}
 	if f.rgStart[len(f.rgStart)-1] != f.n {
 		return fmt.Errorf("row groups hold %d rows, %d written", f.rgStart[len(f.rgStart)-1], f.n)
@@ -226,12 +238,14 @@ type c08View struct {
 	readPage  func() ([]gen.Triple, int, error)
 	readVals  func(batch int) ([]gen.Triple, error)
 	loadIndex func()
+	reset     func() // nil when the reader has no Reset method
 	close     func()
 	pages     parquet.Pages // page mode: the handle, for the verif hook
 	strictNeg bool          // page-level reader of a file: a negative row index must be refused
 }
 
 type c08TypedReader interface {
+	Reset()
 	SeekToRow(int64) error
 	ReadN(n int) (reflect.Value, int, error)
 	Close() error
@@ -241,6 +255,7 @@ type c08Typed[T any] struct{ r *parquet.GenericReader[T] }
 
 func (t c08Typed[T]) SeekToRow(k int64) error { return t.r.SeekToRow(k) }
 func (t c08Typed[T]) Close() error            { return t.r.Close() }
+func (t c08Typed[T]) Reset()                  { t.r.Reset() }
 func (t c08Typed[T]) ReadN(n int) (reflect.Value, int, error) {
 	buf := make([]T, n)
 	k, err := t.r.Read(buf)
@@ -307,6 +322,9 @@ func (f *c08File) open(sp c08Spec) (v *c08View, err error) {
 	useRows := func(rr parquet.Rows) {
 		v.mode = "rows"
 		v.seek = rr.SeekToRow
+		if x, ok := rr.(interface{ Reset() }); ok {
+			v.reset = x.Reset
+		}
 		v.readRows = func(batch int) ([][][]gen.Triple, error) {
 			if cap(rowBuf) < batch {
 				nb := make([]parquet.Row, batch)
@@ -358,6 +376,9 @@ func (f *c08File) open(sp c08Spec) (v *c08View, err error) {
 	useValues := func(vr parquet.ColumnChunkValueReader) {
 		v.mode = "values"
 		v.seek = vr.SeekToRow
+		if x, ok := vr.(interface{ Reset() }); ok {
+			v.reset = x.Reset
+		}
 		v.readVals = func(batch int) ([]gen.Triple, error) {
 			if cap(valBuf) < batch {
 				valBuf = make([]parquet.Value, batch)
@@ -394,6 +415,7 @@ func (f *c08File) open(sp c08Spec) (v *c08View, err error) {
 		rd := parquet.NewReader(pf)
 		v.mode = "typed"
 		v.seek = rd.SeekToRow
+		v.reset = rd.Reset
 		typ := f.rows.Type().Elem()
 		v.readTyped = func(batch int) (reflect.Value, int, error) {
 			out := reflect.MakeSlice(f.rows.Type(), 0, batch)
@@ -416,6 +438,7 @@ func (f *c08File) open(sp c08Spec) (v *c08View, err error) {
 		tr := op(pf)
 		v.mode = "typed"
 		v.seek = tr.SeekToRow
+		v.reset = tr.Reset
 		v.readTyped = tr.ReadN
 		v.close = func() { tr.Close() }
 	case "multi-rows":
@@ -474,6 +497,7 @@ type c08Checker struct {
 	stream   []gen.Triple
 	rowStart []int
 	dead     bool // a negative seek was accepted: the reference position is undefined from here on
+	unknown  bool // a read reported the corrupted page: the position is undefined until the next seek / Reset
 	// what the last op produced, for the L2 trace
 	lastKind string // ok | err | eof | page | other
 	lastPage []gen.Triple
@@ -545,6 +569,14 @@ func (ck *c08Checker) step(op c08Op) (desc string, fail *c08Fail) {
 		v.loadIndex()
 		ck.lastKind = "ok"
 		return "i", nil
+	case 'z':
+		if v.reset == nil {
+			return "z (reader has no Reset)", nil
+		}
+		v.reset()
+		ck.lastKind = "ok"
+		ck.pos, ck.vpos, ck.unknown = 0, 0, false
+		return "z", nil
 	case 's':
 		err := v.seek(op.A)
 		if err == nil {
@@ -563,6 +595,7 @@ func (ck *c08Checker) step(op c08Op) (desc string, fail *c08Fail) {
 			return fmt.Sprintf("%v -> %s", op, errName(err)), nil
 		case err == nil:
 			ck.pos = int(op.A)
+			ck.unknown = false
 			if v.mode == "values" {
 				if ck.pos >= total {
 					ck.vpos = len(ck.stream)
@@ -582,19 +615,30 @@ func (ck *c08Checker) step(op c08Op) (desc string, fail *c08Fail) {
 	if batch < 1 {
 		batch = 1
 	}
-	if ck.dead {
-		// only looking for panics after an accepted negative seek
+	if ck.dead || ck.unknown {
+		// only looking for panics after an accepted negative seek or a failed read
+		var err error
 		switch v.mode {
 		case "rows":
-			v.readRows(batch)
+			_, err = v.readRows(batch)
 		case "typed":
-			v.readTyped(batch)
+			_, _, err = v.readTyped(batch)
 		case "page":
-			v.readPage()
+			var tr []gen.Triple
+			var nr int
+			tr, nr, err = v.readPage()
+			if err == nil {
+				ck.lastKind, ck.lastPage, ck.lastNR = "page", tr, nr
+			} else if err == io.EOF {
+				ck.lastKind = "eof"
+			}
 		case "values":
-			v.readVals(batch)
+			_, err = v.readVals(batch)
 		}
-		return fmt.Sprintf("%v -> (unchecked)", op), nil
+		if ck.f.bad != nil && errors.Is(err, parquet.ErrCorrupted) {
+			ck.lastKind = "corrupt"
+		}
+		return fmt.Sprintf("%v -> (unchecked, %s)", op, errName(err)), nil
 	}
 	pos := ck.pos
 	if pos > total {
@@ -602,6 +646,12 @@ func (ck *c08Checker) step(op c08Op) (desc string, fail *c08Fail) {
 	}
 	finish := func(n int, err error, what string) (string, *c08Fail) {
 		d := fmt.Sprintf("%v @%d -> %d %s, %s", op, pos, n, what, errName(err))
+		if ck.f.bad != nil && errors.Is(err, parquet.ErrCorrupted) {
+			// the corrupted page was reported: from here the position is undefined until a seek
+			ck.unknown = true
+			ck.lastKind = "corrupt"
+			return d, nil
+		}
 		switch {
 		case err == nil && n == 0:
 			return d, &c08Fail{sym: "no-progress", msg: fmt.Sprintf("read at row %d of %d returned nothing and no error", pos, total)}
@@ -687,6 +737,11 @@ func (ck *c08Checker) step(op c08Op) (desc string, fail *c08Fail) {
 		// keep the row position in step (first row starting at or after vpos)
 		for ck.pos < total && ck.rowStart[ck.pos] < ck.vpos {
 			ck.pos++
+		}
+		if ck.f.bad != nil && errors.Is(err, parquet.ErrCorrupted) {
+			ck.unknown = true
+			ck.lastKind = "corrupt"
+			return d, nil
 		}
 		switch {
 		case err == nil && n == 0:
@@ -787,8 +842,11 @@ func c08Shrink(f *c08File, sp c08Spec, ops []c08Op, sym string) []c08Op {
 
 // c08Cause names the failing situation from the shrunk history.
 func c08Cause(ops []c08Op, sym string) string {
-	neg, lazy, twoSeeks := false, false, false
+	neg, lazy, twoSeeks, reset := false, false, false, false
 	for i, o := range ops {
+		if o.K == 'z' {
+			reset = true
+		}
 		if o.K == 's' && o.A < 0 {
 			neg = true
 		}
@@ -800,6 +858,8 @@ func c08Cause(ops []c08Op, sym string) string {
 		}
 	}
 	switch {
+	case reset:
+		return "after-reset-" + sym
 	case neg:
 		return "negative-seek-" + sym
 	case lazy:
@@ -948,6 +1008,9 @@ func c08RandOps(f *c08File, sp c08Spec, v *c08View, r *rand.Rand) []c08Op {
 		switch {
 		case x < 2 && sp.SkipIndex:
 			ops = append(ops, c08Op{K: 'i'})
+		case x >= 2 && x < 5 && v.reset != nil:
+			ops = append(ops, c08Op{K: 'z'})
+			pos, lastLo = 0, 0
 		case x < seekBias:
 			var k int
 			switch y := r.Intn(20); {
@@ -993,7 +1056,7 @@ func c08RandOps(f *c08File, sp c08Spec, v *c08View, r *rand.Rand) []c08Op {
 type c08Trace struct {
 	outs   []string       // ok | err | eof | p<rows> | other
 	pages  [][]gen.Triple // the values of the page returned by the op
-	states []string       // index:pos:skip:lastPageIndex:serve  ("" when the hook has nothing)
+	states []string       // index:pos:skip:lastPageIndex:serve:desync  ("" when the hook has nothing)
 }
 
 func c08HookState(f *c08File, sp c08Spec, v *c08View) string {
@@ -1015,7 +1078,11 @@ func c08HookState(f *c08File, sp c08Spec, v *c08View) string {
 	if st.ServeLastPage {
 		serve = 1
 	}
-	return fmt.Sprintf("%d:%d:%d:%d:%d", st.Index, pos, st.Skip, li, serve)
+	desync := 0
+	if st.Desync {
+		desync = 1
+	}
+	return fmt.Sprintf("%d:%d:%d:%d:%d:%d", st.Index, pos, st.Skip, li, serve, desync)
 }
 
 // c08L2 compares one recorded pages history with the model's answer.
@@ -1061,8 +1128,8 @@ func c08L2(ctx *core.Ctx, f *c08File, sp c08Spec, ops []c08Op, tr *c08Trace, req
 			return
 		}
 		if tr.states[i] != "" {
-			ms := strings.Split(mstate, ":") // index:pos:skip:li:lp:serve
-			want := strings.Join([]string{ms[0], ms[1], ms[2], ms[3], ms[5]}, ":")
+			ms := strings.Split(mstate, ":") // index:pos:skip:li:lp:serve:desync
+			want := strings.Join([]string{ms[0], ms[1], ms[2], ms[3], ms[5], ms[6]}, ":")
 			if want != tr.states[i] {
 				fail(i, "state")
 				return
@@ -1172,6 +1239,131 @@ func (w *c08Worker) sliceCheck(f *c08File, r *rand.Rand, origin string) {
 	}
 }
 
+// ---------------------------------------------------------------- a page whose checksum does not match
+
+// c08Corrupt returns a copy of f in which one byte of the body of one data page is flipped (the
+// oracle keeps the rows as written). The setup is validated: a plain sequential read of the chunk
+// must deliver the pages in front of it and report ErrCorrupted for this page.
+func c08Corrupt(f *c08File, r *rand.Rand, rg, col, page int) *c08File {
+	if f.nrg() == 0 {
+		return nil
+	}
+	if rg < 0 {
+		rg, col = r.Intn(f.nrg()), r.Intn(f.ncol)
+		if len(f.offsets[rg][col]) == 0 {
+			return nil
+		}
+		page = r.Intn(len(f.offsets[rg][col]))
+	}
+	off, size := f.offsets[rg][col][page], f.psize[rg][col][page]
+	if size < 8 || off+size > int64(len(f.data)) {
+		return nil
+	}
+	g := *f
+	g.data = append([]byte{}, f.data...)
+	g.data[off+size-1-int64(r.Intn(2))] ^= 1 << uint(r.Intn(8))
+	b := f.bounds[rg][col]
+	hi := f.rgStart[rg+1]
+	if page+1 < len(b) {
+		hi = f.rgStart[rg] + int(b[page+1])
+	}
+	g.bad = &c08Bad{rg: rg, col: col, page: page, lo: f.rgStart[rg] + int(b[page]), hi: hi}
+	g.desc = f.desc + fmt.Sprintf(" CORRUPT rg=%d col=%d page=%d rows=%d..%d", rg, col, page, g.bad.lo, g.bad.hi-1)
+	g.buffer = nil
+	// validate
+	ok := func() (ok bool) {
+		defer func() {
+			if rec := recover(); rec != nil {
+				ok = false
+			}
+		}()
+		pf, err := parquet.OpenFile(bytes.NewReader(g.data), int64(len(g.data)))
+		if err != nil {
+			return false
+		}
+		pages := pf.RowGroups()[rg].ColumnChunks()[col].Pages()
+		defer pages.Close()
+		for p := 0; p <= page; p++ {
+			pg, err := pages.ReadPage()
+			if p < page {
+				if err != nil {
+					return false
+				}
+				parquet.Release(pg)
+			} else {
+				return errors.Is(err, parquet.ErrCorrupted)
+			}
+		}
+		return false
+	}()
+	if !ok {
+		return nil
+	}
+	return &g
+}
+
+// reader kinds that run on files with a corrupted page
+var c08CorruptKinds = []string{"pages", "values", "multi-pages", "multi-values", "range-pages", "rowgroup-rows", "reader-readrows", "range-rows"}
+
+// c08CorruptOps: read up to the bad page, then seeks into / around it and reads.
+func c08CorruptOps(f *c08File, v *c08View, r *rand.Rand) []c08Op {
+	lo, hi := f.bad.lo-v.base, f.bad.hi-v.base
+	clamp := func(k int) int64 { return int64(max(0, min(k, v.total+1))) }
+	var ops []c08Op
+	if r.Intn(2) == 0 { // come from the page in front, reading
+		ops = append(ops, c08Op{K: 's', A: clamp(lo - 1 - r.Intn(3))})
+	} else if r.Intn(2) == 0 {
+		ops = append(ops, c08Op{K: 's', A: clamp(lo + r.Intn(max(hi-lo, 1)))})
+	}
+	n := 4 + r.Intn(30)
+	for len(ops) < n {
+		switch x := r.Intn(10); {
+		case x < 5:
+			ops = append(ops, c08Op{K: 'r', A: int64([]int{1, 1, 2, 7, 64}[r.Intn(5)])})
+		case x < 8: // into the bad page
+			ops = append(ops, c08Op{K: 's', A: clamp(lo + r.Intn(max(hi-lo, 1)))})
+		case x < 9: // just around it
+			ops = append(ops, c08Op{K: 's', A: clamp([]int{lo - 1, hi, hi + 1, lo - 2}[r.Intn(4)])})
+		default:
+			ops = append(ops, c08Op{K: 's', A: clamp(r.Intn(v.total + 1))})
+		}
+	}
+	return ops
+}
+
+func (w *c08Worker) corruptCases(f *c08File, r *rand.Rand, origin string, n int) {
+	for t := 0; t < n; t++ {
+		g := c08Corrupt(f, r, -1, 0, 0)
+		if g == nil {
+			w.ctx.Hist("corrupted-page", "setup-rejected")
+			continue
+		}
+		w.ctx.Hist("corrupted-page", "ok")
+		for _, kind := range c08CorruptKinds {
+			sp, ok := c08RandSpec(g, r, kind)
+			if !ok {
+				continue
+			}
+			sp.RG, sp.Col = g.bad.rg, g.bad.col
+			if strings.HasPrefix(kind, "range-") {
+				tot := g.rgStart[sp.RG+1] - g.rgStart[sp.RG]
+				sp.Off = r.Intn(tot)
+				sp.Len = 1 + r.Intn(tot-sp.Off)
+			}
+			v, err := g.open(sp)
+			if err != nil {
+				continue
+			}
+			ops := c08CorruptOps(g, v, r)
+			func() {
+				defer func() { recover() }()
+				v.close()
+			}()
+			w.runCase(g, sp, ops, origin)
+		}
+	}
+}
+
 // ---------------------------------------------------------------- driver of the sub-check
 
 type c08Worker struct {
@@ -1201,7 +1393,16 @@ func (w *c08Worker) flush() {
 // runCase: one history on one view of one file: L1 (+ shrinking and reporting), L2 for FilePages.
 func (w *c08Worker) runCase(f *c08File, sp c08Spec, ops []c08Op, origin string) {
 	ctx := w.ctx
-	l2 := sp.Kind == "pages" && !sp.Async
+	if strings.HasSuffix(sp.Kind, "pages") { // Pages have no Reset method
+		var kept []c08Op
+		for _, o := range ops {
+			if o.K != 'z' {
+				kept = append(kept, o)
+			}
+		}
+		ops = kept
+	}
+	l2 := sp.Kind == "pages" && !sp.Async && (f.bad == nil || (f.bad.rg == sp.RG && f.bad.col == sp.Col))
 	for _, o := range ops {
 		if o.K == 's' && o.A < 0 {
 			l2 = false
@@ -1240,6 +1441,9 @@ func (w *c08Worker) runCase(f *c08File, sp c08Spec, ops []c08Op, origin string) 
 	}
 	ctx.Case(f.desc+"|"+hashHex(f.data)+"|"+sp.String()+"|"+c08OpsString(ops), nback > 0 && f.n > 1)
 	ctx.Hist("view", sp.Kind)
+	if f.bad != nil {
+		ctx.Hist("corrupted-page-view", sp.Kind)
+	}
 	ctx.Hist("history-length", bucket(len(ops)))
 	ctx.Hist("index", map[bool]string{true: "skipped-at-open", false: "loaded"}[sp.SkipIndex])
 	ctx.Hist("readmode", map[bool]string{true: "async", false: "sync"}[sp.Async])
@@ -1263,6 +1467,11 @@ func (w *c08Worker) runCase(f *c08File, sp c08Spec, ops []c08Op, origin string) 
 				small, strace, sfl = ops, trace, fl
 			}
 			key := sp.Kind + "-" + c08Cause(small, sfl.sym)
+			if f.bad != nil {
+				key = sp.Kind + "-after-corrupt-page-" + sfl.sym
+				detail0 := fmt.Sprintf("page %d of row group %d column %d (rows %d..%d) has a flipped byte in its body", f.bad.page, f.bad.rg, f.bad.col, f.bad.lo, f.bad.hi-1)
+				sfl.msg += "; " + detail0
+			}
 			detail := map[string]any{"file": f.desc, "origin": origin, "view": sp.String(), "ops": c08OpsString(small), "trace": strace,
 				"failure": sfl.msg, "unshrunk_ops": len(ops), "row_groups": f.rgStart, "file_sha256": hashHex(f.data)}
 			if len(f.data) <= 6000 {
@@ -1307,7 +1516,11 @@ func (w *c08Worker) runCase(f *c08File, sp c08Spec, ops []c08Op, origin string) 
 		if m := os.Getenv("VERIF_C08_MIRROR"); m == "asis" || m == "fixed" {
 			op += "." + m
 		}
-		req := fmt.Sprintf(op+" %s %d %d %s", core.JoinInts(rows), b2i[f.dict[sp.RG][sp.Col]], b2i[!sp.SkipIndex], sb.String())
+		bad := "-"
+		if f.bad != nil {
+			bad = strconv.Itoa(f.bad.page)
+		}
+		req := fmt.Sprintf(op+" %s %d %d "+bad+" %s", core.JoinInts(rows), b2i[f.dict[sp.RG][sp.Col]], b2i[!sp.SkipIndex], sb.String())
 		ctx.Hist("l2", "compared")
 		opsCopy, trCopy := ops[:len(tr.outs)], tr
 		w.reqs = append(w.reqs, req)
@@ -1347,6 +1560,15 @@ var c08Regressions = []struct{ name, ops string }{
 	{"negative seek", "s3 r1 s-1 r1"},
 	{"cached page revisited", "s20 r1 s22 r1 s20 r1 s29 r1 r1"},
 	{"end and beyond", "s99 r1 r1 s100 r1 s1000 r1 s0 r1"},
+	{"Reset then seek to where the reader was", "r5 z s5 r5"},
+	{"Reset then read on", "s40 r5 z r5 s10 r1"},
+}
+
+// on the fixed file with page 1 of column id (rows 10..19) corrupted
+var c08CorruptRegressions = []struct{ name, ops string }{
+	{"retry seek into the page whose checksum failed", "r1 r1 s15 r1"},
+	{"seek back after a failed read, then forward again", "s5 r1 r1 s3 r1 s15 r1 s20 r1"},
+	{"failed read, seek to the next page", "s10 r1 s20 r1 r1"},
 }
 
 func RunC08(ctx *core.Ctx) {
@@ -1399,6 +1621,25 @@ func RunC08(ctx *core.Ctx) {
 				}
 			}
 		}
+		if f != nil && err == nil {
+			if g := c08Corrupt(f, ctx.Rand("c08/corrupt-fixed"), 0, 0, 1); g == nil {
+				ctx.Fail("L1", "corrupt-setup", "the corrupted page of the fixed file is not reported by a sequential read", nil)
+			} else {
+				for _, reg := range c08CorruptRegressions {
+					for _, kind := range c08CorruptKinds {
+						for _, skip := range []bool{false, true} {
+							for _, async := range []bool{false, true} {
+								sp := c08Spec{Kind: kind, Col: 0, SkipIndex: skip, Async: async}
+								if strings.HasPrefix(kind, "range-") {
+									sp.Off, sp.Len = 0, 100
+								}
+								w.runCase(g, sp, c08ParseOps(reg.ops), "regression (corrupted page): "+reg.name)
+							}
+						}
+					}
+				}
+			}
+		}
 		w.flush()
 	}
 	// 2. random files x views x histories
@@ -1437,6 +1678,7 @@ func RunC08(ctx *core.Ctx) {
 				if k < ctx.Scale(2, 20) {
 					w.sliceCheck(f, r, origin)
 				}
+				w.corruptCases(f, r, origin, ctx.Scale(1, 3))
 				for _, kind := range c08Kinds {
 					for h := 0; h < histsPerView; h++ {
 						sp, ok := c08RandSpec(f, r, kind)
